@@ -80,7 +80,7 @@ func c12CheckBatch(c h.C12BatchCase) h.Result {
 		v = sr25519.NewBatchVerifierWithCapacity(c.Cap)
 	}
 	var model []bool
-	maxN, resets, verifies, hadBad := 0, 0, 0, false
+	maxN, resets, verifies, pairs, hadBad := 0, 0, 0, 0, false
 	and := func() bool {
 		all := len(model) > 0
 		for _, m := range model {
@@ -105,6 +105,7 @@ func c12CheckBatch(c h.C12BatchCase) h.Result {
 		case "addpair":
 			add(op.I)
 			add(op.I + 1)
+			pairs++
 		case "reset":
 			if ret := v.Reset(); ret != v {
 				return r.Fail("sr25519.BatchVerifier.Reset:wrong-return", "step %d", step).Result()
@@ -151,6 +152,10 @@ func c12CheckBatch(c h.C12BatchCase) h.Result {
 	if resets > 0 {
 		r.Class("with-reset")
 	}
+	if pairs > 0 {
+		r.Class("with-cancelling-pair")
+	}
+	_ = verifies
 	if hadBad {
 		r.Class("batch-with-invalid")
 	} else if anyBad {
